@@ -562,10 +562,13 @@ func (w *tWriter) empty() bool {
 // Closes the storage.Writer.
 func (w *tWriter) close() error {
 	if w.w != nil {
-		if err := w.w.Close(); err != nil {
+		// The file is closed even if Close reports an error; closing it
+		// again only yields ErrClosed, so that drop would never succeed.
+		cw := w.w
+		w.w = nil
+		if err := cw.Close(); err != nil {
 			return err
 		}
-		w.w = nil
 	}
 	return nil
 }
